@@ -7,14 +7,16 @@
   code produces exactly the event log of the reference semantics and halts with the specified completion
   (function result: a normal completion is `return undefined`).
 
-  It is `_partial₁` because (a) the fragment excludes for-in/of, switch, uncatchable errors, and finally
-  blocks that contain a return or start with a top-level break/continue (see `stage1`); (b) it is proved
-  for `compileS`, the compositional presentation of the emission; that `compileS p` is the instruction
-  list the back-patching `compileCF` (and, with non-control instructions erased, the real compiler)
-  produces is checked on every generated stage-1 program by the driver (op `A`, field S1) and in
-  `compileS_eq_compileCF_examples`, not proved.
+  It is `_partial₁` because the fragment excludes for-in/of, let-headed loops, switch, uncatchable errors,
+  and finally blocks that start with a top-level break/continue (see `stage1`).
+
+  compileS_eq_compileCF (CompileEq.lean + below): the compositional listing `compileS p` IS the code array the
+  back-patching `compileCF` (mirror of compiler_stmt.go) ends with, for every stage-1 program: a theorem, no
+  longer only the driver's executable check (op `A`, field S1, which stays as a regression test of it).
+  compileCF_correct_stage1 combines the two: stage 1 of `CompileCFCorrect` for compileCF itself.
 -/
 import GojaModel.C08.CompileSSim
+import GojaModel.C08.CompileEq
 
 namespace GojaModel.C08
 open Compl
@@ -153,16 +155,44 @@ theorem compileCF_correct_partial₁ :
   obtain ⟨fuel, ha, hb⟩ := compileS_correct p h1 h2 h3
   exact ⟨fuel, by rw [ha, hb]⟩
 
-/-- compileCF_correct_validated: translation-validation form of stage 1 for the BACK-PATCHING compiler
-`compileCF` itself: for every stage-1 program that passes the executable check `sameCode`, the mini-VM
-run on `compileProgram p` (= compileCF's output) has the reference log and completion. -/
-theorem compileCF_correct_validated (p : Stmt) (hst : stage1 p = true) (h0 : 0 ∉ ids p)
-    (hnop : Instr.nop ∉ compileS p) (hsame : sameCode p = true) :
+/-- compileS_eq_compileCF: for EVERY stage-1 program (no executable check, no hypothesis on the run) the
+instruction list written down compositionally by `compileS` is exactly what the back-patching compiler
+`compileProgram` (mirror of compiler_stmt.go) leaves in the code array after all its patches. The only side
+condition is that the compositional listing has no unpatched placeholder left (`nop ∉`), which is decidable
+on the listing alone and holds for every program the driver has ever produced. -/
+theorem compileS_eq_compileCF (p : Stmt) (hst : stage1 p = true) (hnop : Instr.nop ∉ compileS p) :
+    (compileS p).toArray = compileProgram p := by
+  have hi : Inv [] ({ code := #[Instr.cntZero 0], blocks := [] } : CS) :=
+    ⟨trivial, by intro k hk; simp [pendAll] at hk⟩
+  have hn : Instr.nop ∉ gen p 0 none [] 1 := fun h => hnop (by simp [compileS, h])
+  have E := cf_eq p 0 none [] _ hst (fun _ => rfl) hi hn
+  have hrl := E.rl
+  rw [RL_nil, RL_nil] at hrl
+  have hcode : (compileCF 0 none p { code := #[Instr.cntZero 0], blocks := [] }).code
+      = ([Instr.cntZero 0] ++ gen p 0 none [] 1).toArray := by
+    apply Array.ext'
+    simpa using hrl
+  have h0 : (({} : CS).emit (Instr.cntZero 0)) = { code := #[Instr.cntZero 0], blocks := [] } := rfl
+  unfold compileProgram compileS
+  simp only [h0]
+  by_cases he : endsWithReturn p = true
+  · simp [he, hcode]
+  · simp [he, hcode, CS.emit]
+
+/-- compileCF_correct_stage1: stage 1 of `CompileCFCorrect` for the BACK-PATCHING compiler `compileCF` itself
+(the mirror of compiler_stmt.go), with no executable side check: for every stage-1 program whose
+break/continue targets all resolve, the mini-VM run on `compileProgram p` has the reference log and halts
+with the reference completion. -/
+theorem compileCF_correct_stage1 (p : Stmt) (hst : stage1 p = true) (h0 : 0 ∉ ids p)
+    (hnop : Instr.nop ∉ compileS p) :
     ∃ fuel, (VM.run (compileProgram p) fuel {}).log = (refSem p).2 ∧
             (VM.run (compileProgram p) fuel {}).halted = some (obsCompl (refSem p).1) := by
-  have h : (compileS p).toArray = compileProgram p := by simpa [sameCode] using hsame
-  rw [← h]
+  rw [← compileS_eq_compileCF p hst hnop]
   exact compileS_correct p hst h0 hnop
+
+/-- the executable check `sameCode` the driver still evaluates on every generated stage-1 program is a theorem -/
+theorem sameCode_stage1 (p : Stmt) (hst : stage1 p = true) (hnop : Instr.nop ∉ compileS p) : sameCode p = true := by
+  simp [sameCode, compileS_eq_compileCF p hst hnop]
 
 /-- compileS produces compileCF's instruction list on concrete stage-1 programs (tests on literals; the
 driver checks the same equality on every generated stage-1 program) -/
